@@ -345,7 +345,8 @@ Qed.
    row does not start with an unquoted blank + every code point is a Unicode scalar value other than NUL) *)
 Lemma well_shaped_tok cm rows : well_shaped cm rows = true -> well_tok cm rows = true.
 Proof.
-  unfold well_shaped, well_tok. induction rows as [|r t IH]; [reflexivity|]. cbn [forallb].
+  unfold well_shaped, well_tok. intros H0. apply andb_true_iff in H0 as [_ H0]. revert H0.
+  induction rows as [|r t IH]; [reflexivity|]. cbn [forallb].
   intros H. apply andb_true_iff in H as [Hr Ht]. unfold row_ok in Hr.
   apply andb_true_iff in Hr as [Hr _]. apply andb_true_iff in Hr as [Hr _].
   rewrite Hr, (IH Ht). reflexivity.
@@ -395,6 +396,17 @@ Proof.
 Qed.
 
 (* ---- witnesses of the excluded classes (the reader is the faithful one) ---- *)
+(* a leading U+FEFF (audit 4, A6): the MODEL of the tokenizer keeps it, the real read_csv strips it (observed:
+   the table below reads as [['id','n'],['c','a']]); bom_ok excludes exactly this table - it satisfies every
+   other clause of well_shaped *)
+Lemma leading_bom_excluded :
+  let rows := [[[65279; 105; 100]; [110]]; [[99]; [97]]] in
+  well_shaped false rows = false /\ bom_ok rows = false /\ forallb (row_ok false) rows = true /\
+  csv_parse false (csv_text rows) = Some rows /\
+  (* quoted, or not at the start of the text: admitted *)
+  well_shaped false [[[65279; 44; 105]; [110]]] = true /\ well_shaped false [[[105]; [65279]]; [[65279]; [97]]] = true.
+Proof. vm_compute. repeat split; reflexivity. Qed.
+
 (* '#' at the start of the first field (cell_id #c): the row vanishes for a reader with comment='#' *)
 Lemma hash_row_vanishes :
   exists rows rows',
@@ -811,4 +823,56 @@ Proof.
     destruct Hx as (HA & HB & HC & HD).
     split; [exact HA|]. split; [exact HB|]. split; [exact HC|].
     rewrite HD. cbn. reflexivity.
+Qed.
+
+(* ---- the same with sticky / categ DERIVED by the model and the hypotheses on the STRINGS (audit 4, A4) *)
+Lemma zmem_filter (P : Z -> bool) x l : zmem x (filter P l) = zmem x l && P x.
+Proof. apply Bool.eq_true_iff_eq. rewrite andb_true_iff, !zmem_in, filter_In. reflexivity. Qed.
+
+Lemma NoDup_map_compose {A B C} (f : A -> B) (g : B -> C) (l : list A) :
+  NoDup (map (fun x => g (f x)) l) -> NoDup (map f l).
+Proof.
+  intros H. rewrite <- map_map in H. revert H. generalize (map f l). clear.
+  intros l. induction l as [|b t IH]; intros H; [constructor|]. cbn [map] in H.
+  inversion H as [|? ? Hn Ht]; subst. constructor; [|apply IH, Ht].
+  intros Hin. apply Hn. apply in_map, Hin.
+Qed.
+
+Theorem csv_text_of_blob_auto names reprs repo version nm hier meta algo conf b text :
+  (conf < 2)%nat ->
+  NoDup (map (fun l => name_str names (level_to_name nm l)) hier) ->
+  names_defined names (used_names nm hier meta b) = true ->
+  blob_to_csv_text_auto names reprs repo version nm hier meta algo conf b = Ok text ->
+  exists cols rows,
+    let bodies := csv_comment_bodies names repo version nm hier meta algo in
+    let table := map (col_name names conf) cols :: rows in
+    text = csv_file bodies table /\
+    (forallb comment_ok bodies = true -> well_shaped true table = true -> csv_parse true text = Some table) /\
+    length rows = length b /\
+    forall i cl row,
+      nth_error b i = Some cl -> nth_error rows i = Some row ->
+      tget cols row KId = Some (name_str names (c_id cl)) /\
+      forall j level l,
+        nth_error hier j = Some level -> nth_error (c_levels cl) j = Some l ->
+        let rl := level_to_name nm level in
+        tget cols row (KLabel rl) = Some (name_str names (l_assign l)) /\
+        tget cols row (KName rl) = Some (name_str names (label_to_name nm level (l_assign l) false)) /\
+        (S j = length hier ->
+           tget cols row (KAlias rl) = Some (name_str names (label_to_name nm level (l_assign l) true))) /\
+        tget cols row (KField rl conf) =
+          Some (if categ_word (name_str names rl)
+                then match rassoc (conf_value conf l) reprs with Some s => s | None => [] end
+                else fmt4_rat_text (conf_value conf l)).
+Proof.
+  intros Hconf Hnd _ H. unfold blob_to_csv_text_auto in H. cbv zeta in H.
+  apply NoDup_map_compose with (f := level_to_name nm) (g := name_str names) in Hnd.
+  destruct (csv_text_of_blob _ _ _ _ _ _ _ _ _ _ _ _ _ Hconf Hnd H) as (cols & rows & Ht & Hp & Hl & Hrows).
+  exists cols, rows. cbv zeta. split; [exact Ht|]. split; [exact Hp|]. split; [exact Hl|].
+  intros i cl row Hb Hr. destruct (Hrows i cl row Hb Hr) as [Hid Hlv]. split; [exact Hid|].
+  intros j level l Hh Hc. destruct (Hlv j level l Hh Hc) as (H1 & H2 & H3 & H4).
+  split; [exact H1|]. split; [exact H2|]. split; [exact H3|].
+  rewrite H4. unfold categ_of. rewrite zmem_filter.
+  assert (Hin : zmem (level_to_name nm level) (map (level_to_name nm) hier) = true).
+  { apply zmem_in. apply in_map. eapply nth_error_In, Hh. }
+  rewrite Hin. reflexivity.
 Qed.
